@@ -12,7 +12,6 @@ Inductive pwhy :=
 | BuilderFinish          (* finish: assert_eq!(children.len(), 1) / root is a token *)
 | RecUnbalanced          (* document: assert_eq!(p.recursion_limit.current, 0) *)
 | RecUnderflow           (* LimitTracker::decrement: usize underflow (debug: panic; release: wrap) *)
-| TyUnreachable          (* SyntaxTree::<Type>::ty(): unreachable!("this should only return Type node") *)
 | NameSlice              (* name::validate_name: name[1..] off a char boundary *)
 | PeekNZero              (* peek_n_inner: n - 1 with n = 0 *)
 | DebugAssert.           (* peek_while / peek_while_kind: debug_assert!(before != current_token) *)
